@@ -1,6 +1,6 @@
 (* Non-vacuity examples and refutation witnesses for C11. *)
 From Coq Require Import List String Bool ZArith.
-From PAFC11 Require Import Lib Gen Model Proofs Proofs2 Proofs3 Proofs4 Proofs5.
+From PAFC11 Require Import Lib Gen Model Proofs Proofs2 Proofs3 Proofs4 Proofs5 Proofs6.
 Import ListNotations.
 Open Scope string_scope.
 Open Scope list_scope.
@@ -167,3 +167,25 @@ Example grid_obs_matches_example :
   grid_obs_matches false grid_zero_best ("g", ObsBestNone, ["c2"]) = false /\
   grid_obs_matches false grid_zero_best ("g", ObsBestId "c2", ["c2"; "c3"]) = false.
 Proof. vm_compute. repeat split; reflexivity. Qed.
+
+(* identifier tokens on both sides; the three tags are told apart; the truthy rule is refuted on '' *)
+Example id_tokens_three_tags :
+  writer_tokens ["S"; "1"] ["M"] None = ["S"; "1"; "M"] /\
+  writer_tokens ["S"; "1"] ["M"] (Some "") = ["S"; "1"; "M"; ""] /\
+  loader_tokens ["S"; "1"] ["M"] (Some "") = ["S"; "1"; "M"; ""] /\
+  loader_tokens ["S"; "1"] ["M"] (Some "t1") = ["S"; "1"; "M"; "t1"] /\
+  writer_tokens_truthy ["S"; "1"] ["M"] (Some "") = ["S"; "1"; "M"].
+Proof. vm_compute. repeat split; reflexivity. Qed.
+Example truthy_partial_hypothesis_nonvacuous : (Some "t1" : option string) <> Some "" /\ (None : option string) <> Some "".
+Proof. split; discriminate. Qed.
+Example cident_example :
+  let table := [(["S"; "M"], "id0"); (["S"; "M"; ""], "id1")] in
+  check_case search_classes gs_id_uses_folder (CIdent ["S"] ["M"] (Some "") table "id1" "id1" "id1") = true /\
+  check_case search_classes gs_id_uses_folder (CIdent ["S"] ["M"] (Some "") table "id0" "id1" "id0") = false /\
+  check_case search_classes gs_id_uses_folder (CIdent ["S"] ["M"] None table "id0" "id0" "id0") = true.
+Proof. vm_compute. repeat split; reflexivity. Qed.
+Example empty_tag_path :
+  spec_path (with_tag spec_a (Some "")) = ["pp"; "s1"; "abc"] /\ spec_path (with_tag spec_a (Some "t1")) = ["pp"; "t1"; "s1"; "abc"].
+Proof. vm_compute. split; reflexivity. Qed.
+Example no_empty_level_hypothesis_nonvacuous : fs_id spec_a <> "".
+Proof. vm_compute. discriminate. Qed.
